@@ -624,9 +624,13 @@ func c18History(c *vrep.Ctx) {
 		{18, "-- x\n{- y\n   z -}\nmain = 1 -- w\n"},
 		{2, "no comments here\n"},
 		{langHTML, "<!-- a -->\n<p>t</p>\n<!-- b\n c -->\n"},
+		// languages that share a comment style with others but not all of its delimiters (Rust has //
+		// like C and no /* */ here; MySQL and Matlab-style fallbacks)
+		{33, "let a = 1; /* b */ let c = 2; // d\n// e\n"},
+		{langSQL, "select 1; -- x\n# y\n/* z */\n"},
 	}
 	maxLen := c.Pick(3, 4)
-	c.R.Rule = fmt.Sprintf("ALL sequences of 2..%d Parse calls over %d small sources (C, Python, Go, Haskell, HTML, one without comments): every result, checked AFTER the last call, equals the reference lexer's comments for its own source, and the chunks of the first result (consumed while the later sources are parsed) are the chunks of its own comments; non-trivial = sequences", maxLen, len(pool))
+	c.R.Rule = fmt.Sprintf("ALL sequences of 2..%d Parse calls over %d small sources (C, Python, Go, Haskell, HTML, Rust, SQL, one without comments): every result, checked AFTER the last call, equals the reference lexer's comments for its own source, and the chunks of the first result (consumed while the later sources are parsed) are the chunks of its own comments; non-trivial = sequences", maxLen, len(pool))
 	c.Bound("max_calls", maxLen)
 	chunksOf := func(cs Comments) string {
 		var out []string
